@@ -92,7 +92,7 @@ function batchRewrite (jobs) {
 }
 
 function jobKey (job) {
-  return JSON.stringify([job.cfg, job.prng_seed || 1, job.file, job.code, job.fs || null, job.log_level || 'off'])
+  return JSON.stringify([job.cfg, job.prng_seed || 1, job.file, job.code, job.fs || null, job.log_level || 'off', job.gen || null])
 }
 
 class RewriteTable {
